@@ -30,6 +30,22 @@ VERIF = os.path.dirname(os.path.dirname(os.path.abspath(__file__)))
 REPO = os.environ.get("VV_REPO", "/repo")
 BUILD = os.path.join(VERIF, ".build")
 COQ = os.path.join(VERIF, "coq")
+# compilers and harnesses keep their temporary files in a directory of our own:
+# a cleaner of /tmp running beside a check once removed an assembler input in
+# mid-compilation and the check reported a build failure for an unchanged tree
+_TMP = os.path.join(BUILD, "tmp")
+try:
+    os.makedirs(_TMP, exist_ok=True)
+    os.environ["TMPDIR"] = _TMP
+    for _f in os.listdir(_TMP):
+        _p = os.path.join(_TMP, _f)
+        try:
+            if time.time() - os.lstat(_p).st_mtime > 6 * 3600 and not os.path.isdir(_p):
+                os.unlink(_p)
+        except OSError:
+            pass
+except OSError:
+    pass
 NPROC = os.cpu_count() or 4
 
 SRC_DIRS = ["kernel", "utility", "third_party/tinyxml2", "third_party/date"]
@@ -183,6 +199,8 @@ def build_lib(san="asan"):
             def comp(cc):
                 o = os.path.join(tmp, os.path.relpath(cc, snap).replace("/", "_")[:-3] + ".o")
                 rc, out = sh(["g++"] + flags + ["-c", cc, "-o", o], timeout=600)
+                if rc != 0 and ("No such file or directory" in out or "Killed" in out or "Cannot allocate" in out):
+                    rc, out = sh(["g++"] + flags + ["-c", cc, "-o", o], timeout=600)
                 return rc, out, o
             with concurrent.futures.ThreadPoolExecutor(NPROC) as ex:
                 res = list(ex.map(comp, ccs))
@@ -225,6 +243,8 @@ def build_harness(name, san="asan", extra=None, libs=None):
                                                       "-I" + os.path.join(VERIF, "harness")]
             cmd = ["g++"] + flags + (extra or []) + [src, L["lib"]] + (libs or []) + ["-lpthread", "-o", exe + ".tmp"]
             rc, out = sh(cmd, timeout=900)
+            if rc != 0 and ("No such file or directory" in out or "Killed" in out or "Cannot allocate" in out):
+                rc, out = sh(cmd, timeout=900)      # environmental failure (temporary file removed, memory): once more
             if rc != 0:
                 raise BuildError("harness %s does not compile against the current tree:\n%s" % (name, out[-4000:]))
             os.rename(exe + ".tmp", exe)
